@@ -285,12 +285,28 @@ pub fn outboard(a: &[u128]) -> Vec<u128> {
             let d = ob.data();
             let root_ok = ob.root() == blake3::hash(&data);
             let is_pre = matches!(ob, Ob::PreIO(_) | Ob::PreMem(_));
-            let bao_ok = if bs == 0 && is_pre && !matches!(entry, 8 | 9 | 14) {
+            let mut bao_ok = if bs == 0 && is_pre && !matches!(entry, 8 | 9 | 14) {
                 let (bo, bh) = bao::encode::outboard(&data);
                 bo[8..] == d[..] && bh.as_bytes() == ob.root().as_bytes()
             } else {
                 true
             };
+            // the size-prefixed / size-suffixed forms of the memory outboards
+            let sz = (data.len() as u64).to_le_bytes();
+            match &ob {
+                Ob::PreMem(x) if !matches!(entry, 8 | 9 | 14) => {
+                    let v = x.clone().into_inner_with_prefix();
+                    bao_ok = bao_ok && v[..8] == sz && v[8..] == d[..];
+                    if bs == 0 {
+                        bao_ok = bao_ok && v == bao::encode::outboard(&data).0;
+                    }
+                }
+                Ob::PostMem(x) if !matches!(entry, 8 | 9 | 14) => {
+                    let v = x.clone().into_inner_with_suffix();
+                    bao_ok = bao_ok && v[v.len() - 8..] == sz && v[..v.len() - 8] == d[..];
+                }
+                _ => {}
+            }
             vec![rc, hd(&ob.root()), d.len() as u128, digest(&d) as u128, loads_digest(&ob), b(root_ok), b(bao_ok)]
         }
     }
@@ -868,10 +884,31 @@ pub fn grow_case(a: &[u128]) -> Vec<u128> {
     let d2 = gen_data(a[0] as u64, a[1] as u64, a[3] as usize);
     let d1 = &d2[..a[2] as usize];
     let bsz = BlockSize::from_chunk_log(a[4] as u8);
-    let o1 = PostOrderMemOutboard::create(d1, bsz);
-    let o2 = PostOrderMemOutboard::create(&d2, bsz);
-    let cp = o1.data.iter().zip(o2.data.iter()).take_while(|(x, y)| x == y).count();
-    vec![o1.data.len() as u128, digest(&o1.data) as u128, o2.data.len() as u128, digest(&o2.data) as u128, cp as u128]
+    let route = if a.len() > 5 { a[5] } else { 0 };
+    let (o1, o2): (Vec<u8>, Vec<u8>) = match route {
+        1 => {
+            // one handle: write the prefix, hash it, append the rest, hash again
+            use bao_tree::io::sync::CreateOutboard as SC;
+            use std::io::{Seek, SeekFrom, Write};
+            let mut file = Cursor::new(Vec::<u8>::new());
+            file.write_all(d1).unwrap();
+            let o1 = <PostOrderOutboard<Vec<u8>> as SC>::create(&mut file, bsz).unwrap();
+            file.seek(SeekFrom::End(0)).unwrap();
+            file.write_all(&d2[d1.len()..]).unwrap();
+            let o2 = <PostOrderOutboard<Vec<u8>> as SC>::create(&mut file, bsz).unwrap();
+            (o1.data, o2.data)
+        }
+        2 => {
+            let mut w1 = crate::sched::ShortW { buf: Vec::new(), maxw: 100, cap: usize::MAX };
+            sync::outboard_post_order(Cursor::new(d1), BaoTree::new(d1.len() as u64, bsz), &mut w1).unwrap();
+            let mut w2 = crate::sched::ShortW { buf: Vec::new(), maxw: 100, cap: usize::MAX };
+            sync::outboard_post_order(Cursor::new(&d2), BaoTree::new(d2.len() as u64, bsz), &mut w2).unwrap();
+            (w1.buf, w2.buf)
+        }
+        _ => (PostOrderMemOutboard::create(d1, bsz).data, PostOrderMemOutboard::create(&d2, bsz).data),
+    };
+    let cp = o1.iter().zip(o2.iter()).take_while(|(x, y)| x == y).count();
+    vec![o1.len() as u128, digest(&o1) as u128, o2.len() as u128, digest(&o2) as u128, cp as u128]
 }
 
 /// poststep: args as `decode` (driver 0 = sync iterator, 1 = fsm decoder); the decoder is polled again after
